@@ -11,13 +11,16 @@
  * ops:
  *     put T R HEX                 Hputelement
  *     sw T R LEN HEX              Hstartwrite(LEN) + Hwrite(HEX) + Hendaccess
- *     app T R HEX [HEX ..]        Hstartaccess(new, appendable) + one Hwrite per HEX + Hendaccess
+ *     app T R [HEX ..]            Hstartaccess(new, appendable) + one Hwrite per HEX + Hendaccess
+ *                                 (no HEX: a descriptor with invalid offset/length, no data at all)
  *     hl T R BLEN NBLK HEX        HLcreate + Hwrite + Hendaccess (linked-block element)
  *     vs NAME CLASS NREC SEED     new Vdata (fields a:int32, b:uint8[3]) with NREC records
  *     vg NAME CLASS K SEED        new Vgroup with K tag/ref members
  *     sds NAME NT D0[xD1..] SEED  SDcreate + SDwritedata (+ one attribute) + SDendaccess
  *     gr NAME W H NCOMP SEED      GRcreate + GRwriteimage + GRendaccess
  *     an KIND T R HEX             ANcreate/ANcreatef + ANwriteann + ANendaccess (KIND 0 dl,1 dd,2 fl,3 fd)
+ *     vgadd I K SEED              attach the (I mod n)-th EXISTING Vgroup for writing, add K tag/ref members, detach
+ *                                 (its record is rewritten: new space through descriptor reuse)
  *     sync                        Hsync
  *
  * The HDF stream's writes are intercepted with -Wl,--wrap=fwrite,--wrap=fputc,--wrap=fseek (stream identified by
@@ -151,7 +154,7 @@ static int do_op(sess_t *s, char *line)
         if (Hendaccess(aid) == FAIL) rc = -1;
         return rc;
     }
-    if (!strcmp(tok[0], "app") && nt >= 4) {
+    if (!strcmp(tok[0], "app") && nt >= 3) {
         int32 aid; int i, rc = 0;
         if (need_h(s, 0, 0)) return -1;
         aid = Hstartaccess(s->fid, (uint16)atoi(tok[1]), (uint16)atoi(tok[2]), DFACC_RDWR | DFACC_APPENDABLE);
@@ -195,6 +198,19 @@ static int do_op(sess_t *s, char *line)
         if (Vsetname(vg, tok[1]) == FAIL || Vsetclass(vg, tok[2]) == FAIL) rc = -1;
         for (i = 0; i < k; i++)
             if (Vaddtagref(vg, 700 + (int32)(rnd() % 5), 1 + (int32)(rnd() % 50)) == FAIL) rc = -1;
+        if (Vdetach(vg) == FAIL) rc = -1;
+        return rc;
+    }
+    if (!strcmp(tok[0], "vgadd") && nt >= 4) {
+        int32 vg, ref = -1, refs[256]; int n = 0, k = atoi(tok[2]), i, rc = 0;
+        if (need_h(s, 0, 0)) return -1;
+        rnd_state = (unsigned)atoi(tok[3]);
+        while (n < 256 && (ref = Vgetid(s->fid, ref)) != FAIL) refs[n++] = ref;
+        if (n == 0) return 0;
+        vg = Vattach(s->fid, refs[atoi(tok[1]) % n], "w");
+        if (vg == FAIL) return -1;
+        for (i = 0; i < k; i++)
+            if (Vaddtagref(vg, 710 + (int32)(rnd() % 5), 1 + (int32)(rnd() % 50)) == FAIL) rc = -1;
         if (Vdetach(vg) == FAIL) rc = -1;
         return rc;
     }
@@ -519,7 +535,7 @@ static void run_session(const char *dir, const char *name, char **base, int nbas
         sess_t s = {FAIL, FAIL, FAIL, FAIL, 0, path};
         int rc = 0;
         if (need_h(&s, 1, ndds)) _exit(3);
-        for (i = 0; i < nbase; i++) { char *l = strdup(base[i]); int r = do_op(&s, l); if (r) { fprintf(stderr, "base op failed (%d): %s", r, base[i]); rc = 4; } free(l); }
+        for (i = 0; i < nbase; i++) { char *l = strdup(base[i]); int r = do_op(&s, l); if (r) { fprintf(stderr, "opfail base (%d): %s", r, base[i]); rc = 4; } free(l); }
         if (end_session(&s)) rc = 5;
         _exit(rc);
     }
@@ -555,7 +571,7 @@ static void run_session(const char *dir, const char *name, char **base, int nbas
         t_dev = sb.st_dev; t_ino = sb.st_ino;
         log_fp = fopen(logp, "w");
         logging = 1;
-        for (i = 0; i < nops; i++) { char *l = strdup(ops[i]); int r = do_op(&s, l); if (r) { fprintf(stderr, "session op failed (%d): %s", r, ops[i]); rc = 4; } free(l); }
+        for (i = 0; i < nops; i++) { char *l = strdup(ops[i]); int r = do_op(&s, l); if (r) { fprintf(stderr, "opfail go (%d): %s", r, ops[i]); rc = 4; } free(l); }
         if (end_session(&s)) rc = 5;
         logging = 0;
         fclose(log_fp);
